@@ -49,7 +49,11 @@ class _Capture(_logging.Handler):
         self.records = []
 
     def emit(self, record):
-        self.records.append((record.name, record.levelname, record.getMessage()))
+        try:
+            text = record.getMessage()
+        except Exception as e:  # noqa  (a message that cannot be rendered is no warning about anything; it is kept as such)
+            text = "UNRENDERABLE (%s): %r %% %r" % (type(e).__name__, record.msg, record.args)
+        self.records.append((record.name, record.levelname, text))
 
 
 CAPTURE = _Capture()
